@@ -35,13 +35,15 @@ RENDERABLE = ['BadGateway', 'BadOption', 'BadRequest', 'Conflict', 'Construction
               'UnallowedMethod', 'Unauthorized', 'UnprocessableEntity', 'UnsupportedContentFormat', 'UnsupportedMethod']
 RET_CODES = [rc.CONTENT, rc.CREATED, rc.CHANGED, rc.DELETED, rc.VALID, rc.BAD_REQUEST, rc.code(5, 3), rc.code(4, 29)]
 KINDS = ["ret_code", "ret_nocode", "raise_renderable", "raise_renderable_text", "raise_generic", "ret_none", "ret_str",
-         "ret_int", "ret_tuple", "renderer_raises", "renderer_none", "missing", "get_only"]
+         "ret_int", "ret_tuple", "renderer_raises", "renderer_none", "missing", "get_only", "ret_unserializable",
+         "raw_render_nonmessage"]
 
 
 def gen_req(r, i):
     kind = r.weighted([(3, "ret_code"), (3, "ret_nocode"), (3, "raise_renderable"), (2, "raise_renderable_text"),
                        (3, "raise_generic"), (1, "ret_none"), (1, "ret_str"), (1, "ret_int"), (1, "ret_tuple"),
-                       (2, "renderer_raises"), (1, "renderer_none"), (2, "missing"), (2, "get_only")])
+                       (2, "renderer_raises"), (1, "renderer_none"), (2, "missing"), (2, "get_only"),
+                       (2, "ret_unserializable"), (1, "raw_render_nonmessage")])
     q = {"id": i, "kind": kind, "method": r.choice(list(METHODS)), "con": r.chance(0.7), "slow": r.chance(0.35),
          "client": 0}
     if kind == "ret_code":
@@ -190,6 +192,9 @@ def execute(sim, scn):
                 return 42
             if k == "ret_tuple":
                 return (Message(payload=b"x"), 1)
+            if k == "ret_unserializable":
+                # a Message object all right, but one that cannot be put on the wire (text payload)
+                return Message(payload=SECRET + " text payload")
             if k == "renderer_raises":
                 raise BadRenderer("raise")
             if k == "renderer_none":
@@ -197,6 +202,19 @@ def execute(sim, scn):
             raise AssertionError("unknown kind")
 
         render_get = render_post = render_put = render_delete = render_fetch = render_patch = render_ipatch = _do
+
+    class RawRender(resource.Resource):
+        """does its own rendering without block-wise assembly and returns something that is no message"""
+
+        async def needs_blockwise_assembly(self, request):
+            return False
+
+        async def render(self, request):
+            rid = int(request.opt.uri_query[0][2:])
+            invocations.append((loop.now, rid))
+            if specs[rid]["slow"]:
+                await asyncio.sleep(0.3)
+            return SECRET + " not a message"
 
     class GetOnly(resource.Resource):
         async def render_get(self, request):
@@ -210,6 +228,7 @@ def execute(sim, scn):
         site = resource.Site()
         site.add_resource(["zoo"], Zoo())
         site.add_resource(["getonly"], GetOnly())
+        site.add_resource(["raw"], RawRender())
         return await sim.server(None if scn.get("nosite") else site, common.SERVER_IP)
 
     loop.run_until_complete(setup())
@@ -229,7 +248,7 @@ def execute(sim, scn):
         cl = clients[q["client"]]
         token = bytes([0xD0, q["id"]])
         tokens[q["id"]] = (cl.addr, token)
-        path = {"missing": b"nowhere", "get_only": b"getonly"}.get(q["kind"], b"zoo")
+        path = {"missing": b"nowhere", "get_only": b"getonly", "raw_render_nonmessage": b"raw"}.get(q["kind"], b"zoo")
         m = {"type": rc.CON if q["con"] else rc.NON, "code": METHODS[q["method"]], "mid": 0x100 + q["id"],
              "token": token, "options": [(rc.URI_PATH, path), (rc.URI_QUERY, b"r=%d" % q["id"])], "payload": b""}
         raw = rc.encode(m)
@@ -273,6 +292,11 @@ def execute(sim, scn):
             # all five copies of an earlier confirmable response to this client were lost: the message layer reports a
             # transport failure for the endpoint and drops what was held back for it (NSTART).  Narrow relaxation.
             sim.anomaly("response-dropped-after-give-up-towards-client", q["kind"])
+            continue
+        if not distinct and q["kind"] == "ret_unserializable" and q["slow"] and q["con"]:
+            # known finding: the message is only serialised when it is put on the wire; for a separate (confirmable)
+            # response that happens after send_message returned, so the failure is not turned into a 5.00
+            sim.violation("C09/unserializable-separate-response-unanswered", dict(ident))
             continue
         if len(distinct) != 1:
             sim.violation("C09/no-final-response" if not distinct else "C09/more-than-one-final-response",
